@@ -16,7 +16,7 @@ import (
 	"sync"
 )
 
-const FileHeader = "package sample\n\nimport (\n\t\"math/bits\"\n\t\"unicode/utf16\"\n\t\"unicode/utf8\"\n)\n\nvar _ = bits.Len\nvar _ = utf8.ValidString\nvar _ = utf16.IsSurrogate\n"
+const FileHeader = "package sample\n\nimport (\n\t\"math/bits\"\n\t\"unicode/utf16\"\n\t\"unicode/utf8\"\n\t\"unsafe\"\n)\n\nvar _ = bits.Len\nvar _ = utf8.ValidString\nvar _ = utf16.IsSurrogate\nvar _ = unsafe.Sizeof(0)\n"
 
 // RenderFile assembles an analysable Go file from function sources.
 func RenderFile(funcs []string) string {
@@ -83,6 +83,12 @@ func RenameHelpers(src, suffix string) string {
 		case *ast.CallExpr:
 			if id, ok := x.Fun.(*ast.Ident); ok && names[id.Name] {
 				id.Name += suffix
+			}
+			// an explicit instantiation: helper[int](...)
+			if ix, ok := x.Fun.(*ast.IndexExpr); ok {
+				if id, ok := ix.X.(*ast.Ident); ok && names[id.Name] {
+					id.Name += suffix
+				}
 			}
 		}
 		return true
@@ -250,7 +256,7 @@ func InputAt(idx int) string {
 func RunNative(dir string, funcs []NativeFunc) (map[string]Obs, error) {
 	os.MkdirAll(dir, 0o755)
 	var sb strings.Builder
-	sb.WriteString("package main\n\nimport (\n\t\"bufio\"\n\t\"crypto/sha256\"\n\t\"encoding/hex\"\n\t\"fmt\"\n\t\"math/bits\"\n\t\"os\"\n\t\"strings\"\n\t\"unicode/utf16\"\n\t\"unicode/utf8\"\n)\n\nvar _ = bits.Len\nvar _ = utf8.ValidString\nvar _ = utf16.IsSurrogate\n")
+	sb.WriteString("package main\n\nimport (\n\t\"bufio\"\n\t\"crypto/sha256\"\n\t\"encoding/hex\"\n\t\"fmt\"\n\t\"math/bits\"\n\t\"os\"\n\t\"strings\"\n\t\"unicode/utf16\"\n\t\"unicode/utf8\"\n\t\"unsafe\"\n)\n\nvar _ = bits.Len\nvar _ = utf8.ValidString\nvar _ = utf16.IsSurrogate\nvar _ = unsafe.Sizeof(0)\n")
 	sb.WriteString(Prelude)
 	var tab strings.Builder
 	tab.WriteString("var table = []struct {\n\tid string\n\tf  fn\n}{\n")
